@@ -265,6 +265,36 @@ def parse_twice(k):
         return ok and a == b
 
 
+def parse_twice_grid(quick, kind, chunk, i):
+    """generated shape i of the chunk, emitted as `kind` and read back from its text: parsing the SAME node twice leaves the node
+    unchanged and gives the same description both times (emitted functions have no body beyond the docstring)"""
+    from lib.domain import parse_kind
+
+    i = realize(i)
+    with untraced():
+        rows = grid_rows("quick" if quick else "thorough")
+        rid = rows[chunk][i]
+        try:
+            node = emit_kind(mk_ir(rid), kind, {})
+            node = ast.parse(ast.unparse(ast.fix_missing_locations(node))).body[0]
+        except Exception:
+            return True  # the shape cannot be rendered as this kind (round-trip family's known findings)
+        snap = ast.dump(node)
+        try:
+            a = parse_kind(node, kind, {})
+        except Exception:
+            return ast.dump(node) == snap
+        if ast.dump(node) != snap:
+            return False
+        try:
+            b = parse_kind(node, kind, {})
+        except Exception:
+            return False
+        a.pop("_internal", None)
+        b.pop("_internal", None)
+        return ast.dump(node) == snap and a == b
+
+
 def grid_rows(tier):
     from lib import grid
 
@@ -308,6 +338,14 @@ def obligations(tier, seed):
                 pre=["0 <= i < %d" % len(ids)], body="H.frame_grid(%r, %d, %d, %d, i)" % (tier == "quick", w1, w2, c), witness=(0,), kind="F",
                 bounds="generated shapes %s..%s (%d rows of lib/grid.py, table-indexed, content concrete); emitter %d then emitter %d on the "
                 "same object" % (ids[0], ids[-1], len(ids), w1, w2), timeout=300 if tier == "quick" else 1200, path_timeout=100, funcs=FUNCS))
+    for kind in ("function", "method", "class", "argparse"):
+        for c, ids in enumerate(grid_rows(tier)):
+            if tier == "quick" and (c + len(kind)) % 2:
+                continue
+            obs.append(Ob(name="parse_twice_grid_%s_%d" % (kind, c), params=[("i", "int")], pre=["0 <= i < %d" % len(ids)],
+                          body="H.parse_twice_grid(%r, %r, %d, i)" % (tier == "quick", kind, c), witness=(0,), kind="F",
+                          bounds="generated shapes %s..%s (%d rows): emitted as %s, re-read from text, the same node parsed twice" % (ids[0], ids[-1], len(ids), kind),
+                          timeout=300 if tier == "quick" else 1200, path_timeout=100, funcs=FUNCS))
     for w in range(4):
         for i in range(6):
             params, pre = [("p", "str"), ("d", "int")], ["1 <= len(p) <= 2", "all(c in %r for c in p)" % PROSE_A,
